@@ -1095,7 +1095,9 @@ impl AssemblyCode {
                             cycles: 2,
                             cycles_alt: Some(3),
                             nb_bytes: 2,
-                            protected: false,
+                            // The branch after it needs the flags of the same compare: when
+                            // this code is inlined and optimized again, the compare must stay
+                            protected: true,
                         }));
                         if signed {
                             self.code.push(AsmLine::Instruction(AsmInstruction {
